@@ -29,14 +29,24 @@ for d in sorted(glob.glob(os.path.join(V, "seeded", "*"))):
     if not os.path.exists(mp):
         continue
     m = json.load(open(mp))
-    val = m.get("validation", {})
-    ch = val.get("checks", {})
-    caught = [c for c, r in ch.items() if r.get("caught")]
-    missed = [c for c, r in ch.items() if r.get("caught") is False]
-    files = ", ".join(m.get("files_changed", []))[:80]
-    crow.append(f"| {os.path.basename(d)} | {m['property']} | {esc(files)} | {esc(m.get('needs',''))[:160]} | {', '.join(caught) or '–'} | {', '.join(missed) or '–'} |")
-catches = ("| seeded change | breaks | file(s) | needs, to manifest | caught by `./check` | run but not caught by |\n"
-           "|---|---|---|---|---|---|\n" + "\n".join(crow) + "\n")
+    vals = [v for v in m.get("validation_history", []) if v] + [m.get("validation", {})]
+    first = {}
+    for v in vals:                      # first verdict per check, in validation order
+        for c, r in v.get("checks", {}).items():
+            first.setdefault(c, r.get("caught"))
+    last = {}
+    for v in vals:
+        for c, r in v.get("checks", {}).items():
+            if r.get("caught") is not None:
+                last[c] = r.get("caught")
+    caught_first = [c for c, r in first.items() if r]
+    missed_first = [c for c, r in first.items() if r is False]
+    later = [c for c in missed_first if last.get(c)]
+    still = [c for c in missed_first if not last.get(c)]
+    files = ", ".join(m.get("files_changed", []))[:70]
+    crow.append(f"| {os.path.basename(d)} | {m['property']} | {esc(files)} | {esc(m.get('needs',''))[:150]} | {', '.join(caught_first) or '–'} | {', '.join(later) or '–'} | {', '.join(still) or '–'} |")
+catches = ("| seeded change | breaks | file(s) | needs, to manifest | caught at first run by | missed first, caught after strengthening | run but not caught by |\n"
+           "|---|---|---|---|---|---|---|\n" + "\n".join(crow) + "\n")
 
 p = os.path.join(V, "DESIGN.md")
 s = open(p).read()
